@@ -49,7 +49,7 @@ def _run_impl_guarded(P, case):
         return {"infra": str(e)}
     except BaseException as e:  # noqa: B902
         if hook_lost(e):
-            return {"hook": hook_lost(e)}
+            return {"hook_lost": hook_lost(e)}
         # the materialisers run to their end on the unchanged tree (every check runs them on every run): an exception
         # escaping from one - typically raised by the library while a well-formed program is DEFINED - is an observation
         # about the implementation, not an infrastructure problem
@@ -77,7 +77,7 @@ def _run_directed(P, case):
         raise
     except BaseException as e:  # noqa: B902
         if hook_lost(e):
-            return {"fails": [], "hook": hook_lost(e)}
+            return {"fails": [], "hook_lost": hook_lost(e)}
         # the scenarios are deterministic programs that run to their end on the unchanged tree (they are run on every
         # check): one that is cut short by an exception of the library is a failed scenario, not an infrastructure problem
         import traceback
@@ -97,8 +97,8 @@ def evaluate(P, pid, tagged_cases, workers, acc):
         acc["by_tag"][tag] += 1
         acc["keys"].add(("directed", case.get("name"), repr(sorted((k, repr(v)) for k, v in case.items()))))
         acc["dist"]["directed:" + str(case.get("name"))] += 1
-        if res.get("hook"):
-            dties.append({"tag": tag, "case": case, "impl": "the harness's hook into the library is gone: " + res["hook"], "model": "scenario not run"})
+        if res.get("hook_lost"):
+            dties.append({"tag": tag, "case": case, "impl": "the harness's hook into the library is gone: " + res["hook_lost"], "model": "scenario not run"})
         if res.get("fails"):
             dviol.append({"tag": tag, "case": case, "fails": res["fails"], "cls": res.get("cls", "unclassified"), "impl": res,
                           "model": None, "tie_ok": True})
@@ -131,8 +131,8 @@ def _evaluate_modelled(P, pid, tagged_cases, workers, acc):
             raise common.Infra(io["infra"])
         acc["evaluations"] += 1
         acc["by_tag"][tag] += 1
-        if "hook" in io:
-            tie_breaks.append({"tag": tag, "case": case, "impl": "the harness's hook into the library is gone: " + io["hook"], "model": "not compared"})
+        if "hook_lost" in io:
+            tie_breaks.append({"tag": tag, "case": case, "impl": "the harness's hook into the library is gone: " + io["hook_lost"], "model": "not compared"})
             continue
         if "crash" in io:
             violations.append({"tag": tag, "case": case, "fails": ["running the case on the implementation did not complete: %s" % io["crash"]],
@@ -180,7 +180,7 @@ def still_fails(P, case):
     io = _run_impl_guarded(P, case)
     if "infra" in io:
         return None
-    if "hook" in io:
+    if "hook_lost" in io:
         return None
     if "crash" in io:
         return {"case": case, "fails": ["running the case on the implementation did not complete: %s" % io["crash"]], "cls": "unclassified",
